@@ -451,6 +451,12 @@ pub(crate) fn decision_point(me: usize, cond: Cond, op: OpKind, obj: usize) {
             }
         }
     }
+    // the flag raised by the program itself (error cap, fatal, failed output): first step at which it is seen
+    if let Some(f) = &rt.stop_flag {
+        if f.load(Ordering::SeqCst) {
+            crate::io::mark_stop_once();
+        }
+    }
     rt.threads[me].pending = cond;
     rt.threads[me].state = ThState::Ready;
     if step > rt.cfg.step_budget {
